@@ -12,8 +12,9 @@
      forall CAS1 CAS2 satisfying the premise, content(CAS1) <> content(CAS2) -> rows(CAS1) <> rows(CAS2)
    for arbitrary pairs.  What is proved is sensitivity to every kind of SINGLE-POINT change named by the property
    (C20_render_sensitive_*_partial below).  Known limits of the implementation that make the full statement false as it
-   stands: a string feature value equal to "<NULL>" is rendered like None; in which views a structure without a sofa
-   feature is indexed is not rendered; the contents of lists (FSList & co) held inline are not rendered.
+   stands: a string feature value equal to "<NULL>" is rendered like None and in which views a structure without a sofa
+   feature is indexed is not rendered (open findings, C20_null_sentinel_refuted / C20_view_of_sofaless_refuted below); the
+   contents of lists (FSList & co) held inline are not rendered (lists are not in the property's enumeration).
    Invariance under a save/load round trip needs C01/C02 and is checked by the oracle only. *)
 From Cassis Require Import Base Heap Schema Reach Comparable ComparableProofs RefutedC20.
 Open Scope Z_scope.
@@ -216,6 +217,26 @@ Print Assumptions C20_compare_mixed_refuted.
 Theorem C20_cyclic_array_old_refuted : forall fuel d, render_val_old fuel self_array d (VRef 1%N) = OutOfFuel.
 Proof. exact cyclic_array_old_refuted. Qed.
 Print Assumptions C20_cyclic_array_old_refuted.
+
+(* ---- open findings (known_findings.json: null_sentinel_string, view_of_sofaless_fs): without the side premises of the
+   sensitivity theorems the property as written is false of the CURRENT mechanism ---- *)
+(* C20_render_sensitive_primitive_partial without "the string is not <NULL>" (prim_differs): *)
+Theorem C20_null_sentinel_refuted :
+  exists vs h x f n v',
+    unique_offsets_per_type h [x] = true /\ hget h x = Some f /\ slot f n = VNone /\ v' = VStr NULL /\ v' <> slot f n /\
+    rf_rows vs (hset h x (set_slot f n v')) = rf_rows vs h /\ exists R, rf_rows vs h = Ok R.
+Proof. exact null_sentinel_refuted. Qed.
+Print Assumptions C20_null_sentinel_refuted.
+(* "the view of a structure" read as the view it is indexed in, for a structure without a sofa feature: *)
+Theorem C20_view_of_sofaless_refuted :
+  exists h x vs vs',
+    unique_offsets_per_type h [x] = true /\
+    memN x (v_members (nth 0 vs (mkView (mkSofa 0 0 "" None None None None) []))) = true /\
+    memN x (v_members (nth 0 vs' (mkView (mkSofa 0 0 "" None None None None) []))) = false /\
+    memN x (v_members (nth 1 vs' (mkView (mkSofa 0 0 "" None None None None) []))) = true /\
+    rf_rows vs h = rf_rows vs' h /\ exists R, rf_rows vs h = Ok R.
+Proof. exact view_of_sofaless_refuted. Qed.
+Print Assumptions C20_view_of_sofaless_refuted.
 
 (* ---- non-vacuity: a CAS with a mixed type (two annotations with distinct offsets and one structure without offsets and
    without sofa, reachable only through a reference), an inline array, two views ---- *)
